@@ -117,6 +117,8 @@ def run_tlc(module, cfg_text, workdir, files=None, workers=None, timeout=1800, s
     """run TLC on spec/<module>.tla with the given cfg text in workdir; returns TLCResult.
     Lines printed by PrintT("CASE " \\o json) are collected in .cases (parsed)."""
     os.makedirs(workdir, exist_ok=True)
+    # the time limits only bound a runaway model run: generous in the thorough tier, and scalable for slow or loaded machines
+    timeout = int(timeout * (2.5 if os.environ.get("VERIF_TIER") == "thorough" else 1.5) * float(os.environ.get("VERIF_TIMEOUT_FACTOR", "1")))
     for f in os.listdir(SPEC):
         if f.endswith(".tla"):
             shutil.copy(os.path.join(SPEC, f), os.path.join(workdir, f))
